@@ -3,7 +3,7 @@
    rate to usage p x times (binary64, round to nearest even). *)
 From Coq Require Import String ZArith List Permutation Sorted.
 From Verif Require Import Base.GoInt Base.GoFloat Base.GoSort Base.GoSortSpec Strategy.Model Strategy.ProofsBase
-  Strategy.ProofsSort Strategy.Proofs Strategy.ProofsOk Strategy.ProofsOld Strategy.Statements Strategy.Glue Strategy.ProofsGlue.
+  Strategy.ProofsSort Strategy.Proofs Strategy.ProofsOk Strategy.ProofsOld Strategy.Statements Strategy.Glue Strategy.ProofsGlue Strategy.ModelW Strategy.ProofsW Strategy.ProofsW2.
 Local Open Scope Z_scope.
 
 (* AUTO: a node that received an instance never ends more than one above a node
@@ -104,3 +104,10 @@ Theorem C03_glue : forall caps order status need limit total,
   C03_spec s need limit (glue_infos order status) p.
 Proof. exact glue_C03. Qed.
 Print Assumptions C03_glue.
+
+Theorem C03_rules_int64 : forall s need limit infos total,
+  NoDup (names infos) -> dom64 s need limit infos ->
+  forall p, (s = Global -> float_ok infos) ->
+  is_plan (deployW s need limit infos total) p -> C03_spec s need limit infos p.
+Proof. exact C03_rules_W. Qed.
+Print Assumptions C03_rules_int64.
